@@ -54,7 +54,7 @@ func init() {
 			},
 			{
 				Name: "random",
-				N:    q(600000, 50000000),
+				N:    q(600000, 20000000),
 				Run:  func(c *fw.Case) { c02Case(c, typeIdx(ts(), c.Idx), -1, 0, nil) },
 			},
 			{
